@@ -49,6 +49,17 @@ def wrap(ctx, body):
     if ctx == 'dataclass_if':
         return ('import dataclasses\ntry:\n    @dataclasses.dataclass\n    class K:\n        if xflag:\n%s\n    emit(("fields", [f.name for f in dataclasses.fields(K)]))%s'
                 % (b3, GUARD)), ('class-if', 'K')
+    if ctx == 'dataclass_second':
+        return ('import dataclasses, functools\ntry:\n    @functools.total_ordering\n    @dataclasses.dataclass(eq=False)\n    class K:\n%s\n        def __eq__(self, o): return True\n        def __lt__(self, o): return False\n'
+                '    emit(("fields", [f.name for f in dataclasses.fields(K)]))%s' % (b2, GUARD)), ('class', 'K')
+    if ctx == 'dataclass_call':
+        return 'import dataclasses\ntry:\n    @dataclasses.dataclass(frozen=True)\n    class K:\n%s\n    emit(("fields", [f.name for f in dataclasses.fields(K)]))%s' % (b2, GUARD), ('class', 'K')
+    if ctx == 'dataclass_name':
+        return 'from dataclasses import dataclass, fields\ntry:\n    @dataclass\n    class K:\n%s\n    emit(("fields", [f.name for f in fields(K)]))%s' % (b2, GUARD), ('class', 'K')
+    if ctx == 'namedtuple_name':
+        return 'from typing import NamedTuple\ntry:\n    class K(NamedTuple):\n%s\n    emit(("fields", list(K._fields)))%s' % (b2, GUARD), ('class', 'K')
+    if ctx == 'typeddict':
+        return 'import typing\ntry:\n    class K(typing.TypedDict):\n%s\n    emit(("keys", sorted(K.__annotations__)))%s' % (b2, GUARD), ('class', 'K')
     if ctx == 'namedtuple':
         return 'import typing\ntry:\n    class K(typing.NamedTuple):\n%s\n    emit(("fields", list(K._fields)))%s' % (b2, GUARD), ('class', 'K')
     if ctx == 'if':
